@@ -9,7 +9,7 @@ import (
 	"os"
 	"os/exec"
 	"path/filepath"
-		"strings"
+	"strings"
 	"sync"
 
 	"verif.local/lab/cases"
@@ -121,6 +121,14 @@ type rtResult struct {
 
 // runtimePhase drives the given designs and judges every exchange. only, when set, replaces the case list (replay).
 func runtimePhase(run *vc.Run, b *pipeline.Batch, ds []*pipeline.Design, only []*rt.GCase, verbose bool) {
+	// chunks of 16 designs: a driver binary weighs ~10 MB; they are built, run and deleted chunk by chunk
+	for lo := 0; lo < len(ds); lo += 16 {
+		hi := min(lo+16, len(ds))
+		runtimeChunk(run, b, ds[lo:hi], only, verbose)
+	}
+}
+
+func runtimeChunk(run *vc.Run, b *pipeline.Batch, ds []*pipeline.Design, only []*rt.GCase, verbose bool) {
 	if len(ds) == 0 {
 		return
 	}
@@ -182,6 +190,10 @@ func runtimePhase(run *vc.Run, b *pipeline.Batch, ds []*pipeline.Design, only []
 			se, _ := os.ReadFile(errPath)
 			r.stderr = headS(string(se), 12000)
 			r.setup, r.exs, r.late, _ = readGExchanges(outPath)
+			if os.Getenv("VERIF_KEEP") == "" {
+				_ = os.Remove(b.GRPCDriverPath(d))
+				_ = os.Remove(outPath)
+			}
 			if pl, err := os.ReadFile(progPath); err == nil {
 				lines := strings.Split(strings.TrimSpace(string(pl)), "\n")
 				r.lastLog = lines[len(lines)-1]
@@ -212,6 +224,9 @@ func runtimePhase(run *vc.Run, b *pipeline.Batch, ds []*pipeline.Design, only []
 			// the driver died: the last line of the progress log names the case
 			run.Eval(1)
 			kind, site := crashSite(r.stderr)
+			if ee, ok := r.err.(*exec.ExitError); ok && ee.ExitCode() == 124 {
+				kind = "hang" // timeout(1) reports 124 when it had to signal the driver
+			}
 			class := "setup"
 			if f := strings.Fields(r.lastLog); len(f) >= 5 && f[0] == "case" {
 				class = f[1] + ":" + strings.Join(f[4:], " ")
@@ -260,6 +275,10 @@ func runtimePhase(run *vc.Run, b *pipeline.Batch, ds []*pipeline.Design, only []
 			for set, ms := range v.Seen {
 				for _, mm := range ms {
 					run.Seen("rt_"+set, mm)
+					if set == "reject_codes" {
+						// status code seen by the caller of a rejected invalid request (counted, not judged)
+						run.Count("rt_rejected_with_"+strings.SplitN(strings.TrimPrefix(mm, "stream:"), ":", 2)[0], 1)
+					}
 				}
 			}
 			if m != nil {
